@@ -89,6 +89,20 @@ impl Emitter {
         *self.runtime.write().unwrap() = Some(rt.clone());
     }
 
+    /// drops every handler and the back reference to the runtime, so that an engine
+    /// the verification harness is done with can be freed
+    #[cfg(feature = "verif")]
+    pub fn verif_teardown(&self) {
+        self.messages.write().unwrap().clear();
+        self.starts.write().unwrap().clear();
+        self.completes.write().unwrap().clear();
+        self.errors.write().unwrap().clear();
+        self.procs.write().unwrap().clear();
+        self.tasks.write().unwrap().clear();
+        self.ticks.write().unwrap().clear();
+        *self.runtime.write().unwrap() = None;
+    }
+
     #[cfg(test)]
     pub fn reset(&self) {
         self.messages.write().unwrap().clear();
